@@ -1133,6 +1133,79 @@ static void churn(ctx_t *c)
 }
 
 /*
+ * One-point vector parameters with the values of the predefined ones (1,
+ * 0, -1): each is a parameter of its own - a handle that is neither
+ * predefined nor in use, the value at its frequency, no value far outside
+ * it, and a deletion that frees it.
+ */
+static void onepoint_epilogue(ctx_t *c)
+{
+    model *m = &c->m;
+    static const cx gv[3] = { 1.0, 0.0, -1.0 };
+    static const double f1[1] = { F0 };
+    int h[3] = { -1, -1, -1 };
+
+    for (int k = 0; k < 3 && c->r->status == VF_OK; ++k) {
+	int before = c->elog.nonwarn;
+	h[k] = vnacal_make_vector_parameter(c->vcp, f1, 1, &gv[k]);
+	++c->r->transitions;
+	if (h[k] < 0)
+	    break;		/* table full: nothing to say */
+	bool clash = h[k] < NPREDEF;
+	for (int j = 0; j < k; ++j)
+	    if (h[j] == h[k])
+		clash = true;
+	for (int j = 0; j < 3; ++j)
+	    if (m->slot[j].state == 1 && m->slot[j].handle == h[k])
+		clash = true;
+	if (clash) {
+	    vf_fail(c->r, "handle-not-unique", "vnacal_make_vector_parameter "
+		    "with one point of value %g returned handle %d, which is "
+		    "predefined or in use", creal(gv[k]), h[k]);
+	    return;
+	}
+	cx got = vnacal_get_parameter_value(c->vcp, h[k], F0);
+	if (got != gv[k]) {
+	    vf_fail(c->r, "wrong:vnacal_get_parameter_value", "one-point "
+		    "vector parameter %d reads %g%+gj at its frequency, was "
+		    "made as %g", h[k], creal(got), cimag(got), creal(gv[k]));
+	    return;
+	}
+	before = c->elog.nonwarn;
+	errno = 0;
+	got = vnacal_get_parameter_value(c->vcp, h[k], 10.0 * F0);
+	if (creal(got) != HUGE_VAL || errno != EINVAL ||
+		c->elog.nonwarn <= before) {
+	    vf_fail(c->r, "ghost:vnacal_get_parameter_value", "one-point "
+		    "vector parameter %d given at %g Hz has the value "
+		    "%g%+gj at %g Hz (errno %d)", h[k], F0, creal(got),
+		    cimag(got), 10.0 * F0, errno);
+	    return;
+	}
+    }
+    for (int k = 0; k < 3 && c->r->status == VF_OK; ++k) {
+	if (h[k] < 0)
+	    continue;
+	int before = c->elog.nonwarn;
+	int rc = vnacal_delete_parameter(c->vcp, h[k]);
+	expect_ok(c, "vnacal_delete_parameter", rc, before);
+	before = c->elog.nonwarn;
+	cx got = vnacal_get_parameter_value(c->vcp, h[k], F0);
+	if (creal(got) != HUGE_VAL) {
+	    /* unless the user's own live parameter has that handle */
+	    bool users = false;
+	    for (int j = 0; j < 3; ++j)
+		if (m->slot[j].state == 1 && m->slot[j].handle == h[k])
+		    users = true;
+	    if (!users)
+		vf_fail(c->r, "ghost:vnacal_get_parameter_value", "deleted "
+			"one-point vector parameter %d still has a value",
+			h[k]);
+	}
+    }
+}
+
+/*
  * Second epilogue: parameters made while a vnacal_new_t still holds others
  * (possibly deleted by the user) must stay valid after that vnacal_new_t
  * is freed: make three parameters, free every vnacal_new_t, then read the
@@ -1793,6 +1866,10 @@ static void run_hist(int tier, const int *ops, int n, vf_result *r)
     if (r->status == VF_OK && n > 0) {	/* n == 0 runs outside the sandbox */
 	vf_errlog_reset(&c.elog);
 	churn(&c);
+    }
+    if (r->status == VF_OK && n > 0) {
+	vf_errlog_reset(&c.elog);
+	onepoint_epilogue(&c);
     }
     if (r->status == VF_OK && n > 0) {
 	vf_errlog_reset(&c.elog);
